@@ -238,6 +238,9 @@ def check(ctx):
     if not ctx.is_control:
         from ..report import include
         include(ctx, "C16")
+        # "the inner block's crossing and constraints hold within each group": the window a constraint captured from its own block
+        # must survive rewriting and nesting -- C26's clauses, under their own rule names
+        include(ctx, "C26")
 
     mod = sys.modules[__name__]
     control(ctx, mod, "swap the operands of the weights concatenation in Nest",
